@@ -172,12 +172,13 @@ class Node:
 
     def pytype(self) -> t.Any:
         if self._ty is None:
-            if _BUILD_DEPTH[0] == 0:
-                # typing caches subscriptions by *equal* arguments, and Union / Literal equality ignores order:
-                # List[Union[a, b]] may hand back an alias made earlier for List[Union[b, a]].  Start every
-                # top-level build from empty caches so the built type has the member order the spec says.
-                for clear in getattr(t, '_cleanups', ()):
-                    clear()
+            # typing caches subscriptions by *equal* arguments, and Union / Literal equality ignores order:
+            # List[Union[a, b]] may hand back an alias made earlier for List[Union[b, a]] - also one made a moment ago
+            # for a sibling field of the same class (Optional[Union[int, float]] next to Optional[Union[float, int]]).
+            # Start every build, at every level, from empty caches so the built type has the member order the spec says
+            # (the children are built - and kept in their nodes - before the parent subscribes with them).
+            for clear in getattr(t, '_cleanups', ()):
+                clear()
             _BUILD_DEPTH[0] += 1
             try:
                 self._ty = self.build()
